@@ -65,12 +65,17 @@ def build_case(r, tier):
         chain = r.choice(SEEDED)
         flags = ["--seed", str(r.randint(1, 99999))] + flags
     nfiles = r.choice([1, 1, 2, 2, 3])
+    kind = r.choice(["crash_enum", "crash_enum", "crash_enum", "crash_steps", "fault", "fault", "fault", "refused", "clean"])
+    fk = r.choice(["mktemp", "temp_write", "temp_write", "temp_close", "rename", "chmod", "malformed", "dsl", "dsl_direct", "out_schema", "missing", "read_err",
+                   "remove_after_fail"]) if kind == "fault" else None
     files, names, comp, modes = {}, [], [], []
     for k in range(nfiles):
         n = r.choice([0, 1, 3, 6, 15, 40]) if k > 0 or nfiles > 1 else r.choice([1, 3, 6, 15, 40, 120])
         recs = c17.rect_records(r, n)
         text = c17.fmt_text(fmt, recs) if recs or fmt not in ("json",) else "[\n]\n"
         ck = r.choice(["", "", "", "gz", "z"])
+        if fk in ("temp_write", "temp_close") and r.chance(0.5):
+            ck = r.choice(["gz", "z"])  # the recompressor holds small outputs back until its Close: the write fails there
         sub = r.choice(["", "", "sub/"])
         nm = "%sf%d.%s%s" % (sub, k, ext, "." + ck if ck else "")
         mode = r.choice([0o644, 0o600, 0o755, 0o640, 0o664])
@@ -79,12 +84,10 @@ def build_case(r, tier):
         comp.append(ck)
         modes.append(mode)
     args = ["mlr", "-I"] + flags + gen.chain_args(chain) + names
-    kind = r.choice(["crash_enum", "crash_enum", "crash_enum", "crash_steps", "fault", "fault", "fault", "refused", "clean"])
     case = {"kind": kind, "args": args, "files": files, "names": names, "comp": comp, "modes": modes, "flags": flags,
             "chain": chain, "cseed": r.randint(1, 1 << 40), "knobs": r.choice([None, None, {"bufw": 16}, {"bufw": 64}, {"bufw": 16, "bufr": 16}]),
             "batch": r.choice([None, 1, 2, 3])}
     if kind == "fault":
-        fk = r.choice(["mktemp", "temp_write", "temp_close", "rename", "chmod", "malformed", "dsl", "dsl_direct", "out_schema", "missing", "read_err", "remove_after_fail"])
         j = r.below(nfiles)
         case["fault_kind"] = fk
         case["fault_file"] = j
